@@ -817,7 +817,7 @@ Definition tiled_full_frame (d : dset) (f : Z) : res tframe :=
   if (k <? 0)%Z then Err EValue                                   (* islice refuses a negative start *)
   else if negb (d_tf_class d) then Err EValue
   else
-  match d_origin d with None => Err EAttr | Some (x, y, _) =>     (* the Z offset of the origin is not read *)
+  match d_origin d with None => Err EAttr | Some (x, y, oz) =>    (* the Z offset of the origin defaults to 0 *)
   match d_ori_slide d with None => Err EAttr | Some ol =>
   match ol with
   | o0 :: o1 :: o2 :: o3 :: o4 :: o5 :: _ =>
@@ -838,7 +838,8 @@ Definition tiled_full_frame (d : dset) (f : Z) : res tframe :=
     let ch := (k / (nt * d_focal d))%Z in
     let ci := (t mod ntc)%Z in
     let ri := (t / ntc)%Z in
-    bind (p2r_make (ASeq [x; y; inject_Z sl * ss]) (ASeq [o0; o1; o2; o3; o4; o5]) (ASeq [fst s; snd s])) (fun A =>
+    let z0 := match oz with Some z => z | None => 0 end in
+    bind (p2r_make (ASeq [x; y; z0 + inject_Z sl * ss]) (ASeq [o0; o1; o2; o3; o4; o5]) (ASeq [fst s; snd s])) (fun A =>
     if ((ntc <=? 0) || (ntr <=? 0) || (d_paths d * d_focal d * nt <=? k))%Z then Err EStop
     else Ok (TFrame (ch + 1) (sl + 1) (ci * d_cols d + 1) (ri * d_rows d + 1)
                     (aapply A (V3 (inject_Z (ci * d_cols d)) (inject_Z (ri * d_rows d)) 0)))))
